@@ -334,7 +334,7 @@ class NGen:
     def inner(self, d):
         """integer element set inside SIZE( )"""
         r = self.rng
-        if r.chance(1, 4):
+        if r.chance(1, 6):
             return ('v', r.choice(self.U))
         lo = "MIN" if r.chance(1, 8) else r.choice(self.U)
         hi = "MAX" if r.chance(1, 8) else r.choice(self.U)
@@ -346,10 +346,10 @@ class NGen:
         return g
 
     def atom(self):
-        k = self.rng.below(10)
-        if k < 5:
+        k = self.rng.below(20)
+        if k < 14:
             return ('S', ('r', self.inner(1)))
-        if k < 9:
+        if k < 19:
             return ('S', ('x', self.inner(1)))
         return ('S', ('a', self.inner(1), self.inner(0)))
 
@@ -366,7 +366,7 @@ class NGen:
 
     def inters(self, d):
         e = self.ie(d)
-        for _ in range(self.rng.choice([0, 0, 0, 1, 1, 2]) if d > 0 else self.rng.choice([0, 0, 1])):
+        for _ in range(self.rng.choice([0, 0, 0, 0, 1, 1, 2]) if d > 0 else self.rng.choice([0, 0, 0, 1])):
             e = ('i', e, self.ie(d))
         return e
 
@@ -377,10 +377,10 @@ class NGen:
         return e
 
     def nspec(self, d):
-        k = self.rng.below(10)
-        if k < 6:
+        k = self.rng.below(20)
+        if k < 16:
             return ('r', self.unions(d))
-        if k < 8:
+        if k < 19:
             return ('x', self.unions(d))
         return ('a', self.unions(d), self.unions(0))
 
@@ -425,7 +425,7 @@ def directed(rng, tier):
     trip = [(1, 3), (5, 8), (10, 12)]
     perms = [(0, 1, 2), (0, 2, 1), (1, 0, 2), (1, 2, 0), (2, 0, 1), (2, 1, 0)]
     shapes = [lambda a, b, c: U(U(a, b), c), lambda a, b, c: U(a, ('p', U(b, c))),
-              lambda a, b, c: U(I(a, ('S', ('r', ('g', 0, 20)))), U(b, c)) if False else U(a, I(b, c)),
+              lambda a, b, c: U(a, I(b, c)),
               lambda a, b, c: I(('p', U(a, b)), c), lambda a, b, c: U(I(a, b), c),
               lambda a, b, c: U(E(a, b), c), lambda a, b, c: E(('p', U(a, b)), c),
               lambda a, b, c: U(a, ('p', E(b, c)))]
